@@ -335,6 +335,9 @@ EXPL = {
 
 
 def main_for(what, tier, extra_workers=None):
+    import os
+    # a handful of large sampled circuits make the solver grind for many minutes; they are cut after 4 minutes and listed as unexplored
+    os.environ.setdefault('VERIF_CONFIG_BUDGET_S', '240')
     driver.assert_repo_import()
     rep = driver.Report(what, tier)
     cfgs = configs(what, tier, driver.seed_of())
